@@ -112,6 +112,13 @@ def run(tier, seed, replay=None):
                     live = lc.get('state') in ('created', 'running') and lc['pod'] in lpods if 'pod' in lc else lc.get('state') in ('created', 'running')
                     cc = cache.get(c)
                     demand_grew = not ({k for k, v in listed.items() if v.get('state') in ('created', 'running')} <= live_before) or not (live_before <= held_before)
+                    # ... or when the listing reports a live container with a larger CPU request than the plugin knew
+                    # (the generated runtime may "apply" an update the plugin refused)
+                    before = {x['id']: x for x in (prev['cache'] if prev else [])}
+                    for k, v in listed.items():
+                        sh = (v.get('res') or {}).get('shares')
+                        if v.get('state') in ('created', 'running') and sh is not None and k in before and fsoracle.shares_to_milli(sh) > before[k]['cpureq'] + 1:
+                            demand_grew = True
                     # an allocation can legitimately fail for lack of capacity; it cannot when the container held one
                     # before the restart and the set of live containers did not grow
                     if live and c not in hold and c in held_before and not demand_grew and c not in never_admitted and cc is not None and not cc.get('preserve_cpu') and not (sc['policy'] == 'balloons' and cfg.get('preserve') and cc['name'] in cfg['preserve']['matchExpressions'][0]['values']):
